@@ -32,7 +32,10 @@ canon = iomodel.canon
 def impl(c):
     if c["op"] in iomodel.MODEL_OPS:
         return iomodel.impl(c)
-    return ioops.save_text(c["tg"], c["fmt"], c["blanks"], c.get("min"), c.get("max"), min_len=c["minlen"], via_file=False)
+    r = ioops.save_text(c["tg"], c["fmt"], c["blanks"], c.get("min"), c.get("max"), min_len=c["minlen"], via_file=False)
+    if r[0] == "err":
+        r = tuple(r[:3]) + ({"file_touched": ioops.refused_save_touches_file(c["tg"], c["fmt"], c["blanks"], c.get("min"), c.get("max"), c["minlen"])},)
+    return r
 
 
 def fill(es, lo, hi):
@@ -67,6 +70,8 @@ def oracle(c, r):
     lo = g["lo"] if c.get("min") is None else c["min"]
     hi = g["hi"] if c.get("max") is None else c["max"]
     sig = {"op": "save", "blanks": c["blanks"], "thr": thr is not None}
+    if r[0] == "err" and len(r) > 3 and isinstance(r[3], dict) and r[3].get("file_touched"):
+        return Failure(dict(sig, clause="refused-save-wrote-file"), f"save raised {r[1]} but the file that stood at the destination was overwritten or removed")
     if lo > hi:
         if r[0] == "err" and r[2]:
             return None
